@@ -8,7 +8,7 @@
 and emits, from the same Python object, the C++ expression (built from temporaries, as every use in the
 repository is) and the reference AST for ref_apply, so the two cannot drift.
 
-usage: gen_exprs.py <outdir> <mode> <ntus>     mode: k1 | k2 | red3 | fixed
+usage: gen_exprs.py <outdir> <mode> <ntus>     mode: k1 | k2 | red3 | uu | fixed
 """
 import sys, os, itertools, hashlib
 
@@ -116,6 +116,10 @@ def select(mode):
     if mode == 'red3':
         un = ['neg', 'cmuli', 'divci', 'divcT', 'subcT', 'csubi', 'subcu']
         return trees(3, ['X1', 'D1', 'V'], un, BIN)
+    if mode == 'uu':
+        # every scalar/unary node applied to every scalar/unary node (22 x 22) over three leaves: the two-node
+        # trees in which one scalar operation wraps another one directly
+        return [(u1, (u2, (l,))) for u1 in UN for u2 in UN for l in ['X1', 'D1', 'V']]
     if mode == 'fixed':
         return FIXED
     raise ValueError(mode)
